@@ -164,4 +164,7 @@ def fingerprint_url(url, unsplit=True, strip_suffix=False, platform_aware=False)
     if not unsplit:
         return result
 
-    return urlunsplit(result)[2:]
+    fingerprint = urlunsplit(result)
+
+    # NOTE: "//" is only written in front of a netloc
+    return fingerprint[2:] if fingerprint.startswith("//") else fingerprint
